@@ -143,6 +143,14 @@ class RowExec:
             raise Undecided(f'{self.where}: statement outside the vocabulary in the row body: {u(s).splitlines()[0][:70]}')
 
 
+def _is_const(e, value):
+    return isinstance(e, ast.Constant) and e.value is value
+
+
+def _txt(e):
+    return ast.unparse(e) if isinstance(e, ast.AST) else repr(e)
+
+
 def check(ctx):
     rep, m = ctx.rep, ctx.model
     rep.rule('U1', "hclust: squareform then linkage(method='average') (UPGMA)")
@@ -154,6 +162,14 @@ def check(ctx):
     from . import c01
     rep.rule('K7', 'C01-K7 re-evaluated: every accumulator returns a sorted, duplicate-free signature of the right dtype (the kernel precondition)')
     c01.analyse_accumulators(ctx)
+    # "the true signature distance" of genome FILES: the signatures themselves must be the property-C01 ones - the search, slice,
+    # strand, skip and case-folding premises of C01 are re-evaluated under this property (a change in find_kmers changes every cell)
+    rep.rule('K1', 'C01-K1 (search loops) re-evaluated'); rep.rule('K2', 'C01-K2 slices'); rep.rule('K2.0', 'KmerSpec attribute harvest'); rep.rule('K3', 'C01-K3 composition')
+    rep.rule('K4', 'C01-K4 strand dispatch'); rep.rule('K5', 'C01-K5 skip discipline'); rep.rule('K6', 'C01-K6 case folding'); rep.rule('K9', 'C01-K9 one shared accumulator'); rep.rule('K10', 'C01-K10 input types')
+    rep.rule('T9', 'C07-T9 bindings')
+    c01.harvest_kmerspec(ctx)
+    c01.analyse_slices(ctx, c01.analyse_search_loops(ctx))
+    c01.analyse_accumulate(ctx)
     rep.rule('U4', 'tree_cmd: pairwise (non-flat) matrix of those signatures goes unchanged through hclust and linkage_to_bio_tree to Newick')
     rep.trusted += ["scipy.cluster.hierarchy.linkage(method='average') is UPGMA with non-decreasing merge heights; row i creates node n + i", 'Bio.Phylo Newick writer']
     fh = m.func(f'{CL}.hclust')
@@ -363,8 +379,9 @@ def check(ctx):
         return st
     sigs = u(pw[0].args[0]) if pw[0].args else None
     rep.require(sigs is not None and isinstance(pw[0].args[0], ast.Name), 'tree_cmd: the operand of jaccarddist_pairwise is not a local variable')
-    rep.add('U4', fc.site(pw[0]), 'the distance matrix is the full (non-flat) pairwise matrix of the signatures, in their order', get_kw(pw[0], 'flat') is None and get_kw(pw[0], 'indices') is None and len(pw[0].args) == 1,
-            expected=f'jaccarddist_pairwise({sigs})', found=u(pw[0])[:70], stmt='pairwise')
+    rep.add('U4', fc.site(pw[0]), 'the distance matrix is the full (non-flat) pairwise matrix of the signatures, in their order', _is_const(m.effective_arg(fc, pw[0], 'flat'), False) and _is_const(m.effective_arg(fc, pw[0], 'indices'), None),
+            expected=f'jaccarddist_pairwise({sigs}) with flat False and indices None (as written or by the default of the signature)',
+            found=(u(pw[0])[:70], 'flat=' + _txt(m.effective_arg(fc, pw[0], 'flat'))), stmt='pairwise')
     h_src = origin(hc[0].args[0], holder(hc[0]))[0] if len(hc[0].args) == 1 and not hc[0].keywords else None
     rep.add('U4', fc.site(hc[0]), 'that matrix goes unchanged into the clustering', h_src is pw[0], expected=f'hclust(<result of {u(pw[0])[:40]}>)', found=(u(hc[0]), u(h_src)[:70] if h_src is not None else None), stmt='hclust operand')
     rep.require(len(lt[0].args) == 2 and not lt[0].keywords, 'tree_cmd: linkage_to_bio_tree is not called with (linkage, labels)')
@@ -443,6 +460,8 @@ VARIANTS = [
     V('internal children treated as leaves', 'B', _C, "right.branch_length = height - (0 if right_i < nleaves else link[right_i - nleaves, 2])", "right.branch_length = height - 0", 'U2'),
     V('leaf test uses <=', 'B', _C, "(0 if left_i < nleaves else", "(0 if left_i <= nleaves else", 'U2'),
     V('labels sorted', 'B', _T, "\t\tlabels = sigs.ids\n", "\t\tlabels = sorted(sigs.ids)\n", 'U3'),
+    V('default of flat flipped in the signature of jaccarddist_pairwise (mutation probe)', 'B', 'src/gambit/metric.py', "                         flat: bool = False,", "                         flat: bool = True,", 'U4'),
+    V('E: flat=False written at the call', 'E', _T, "dmat = jaccarddist_pairwise(sigs, progress=pconf.update(desc='Calculating distances'))", "dmat = jaccarddist_pairwise(sigs, flat=False, progress=pconf.update(desc='Calculating distances'))"),
     V('tree built from a flat matrix of other data', 'B', _T, "link = hclust(dmat)", "link = hclust(dmat ** 2)", 'U4'),
     V('root is the first internal node', 'B', _C, "return Tree(root=clades[-1], rooted=True)", "return Tree(root=clades[nleaves], rooted=True)", 'U2'),
     V('children swapped into one clade twice', 'B', _C, "clades.append(Clade(clades=[left, right]))", "clades.append(Clade(clades=[left, left]))", 'U2'),
